@@ -66,33 +66,39 @@ Definition mod_table : list (range * Z) :=
   | _ => []
   end.
 Definition d_module_at (x : Z) : option Z := rm_get mod_table x.
-Definition d_max_module_addr : Z :=
+(* modules.by_addr().next_back(): the module with the highest base address, as (base_address, size) *)
+Definition d_last_module : option (Z * Z) :=
   match rev mod_table with
   | (_, idx) :: _ =>
       match nth_error mods (Z.to_nat idx) with
-      | Some (b, s, _) => sat_add 64 b s
-      | None => 0
+      | Some (b, s, _) => Some (b, s)
+      | None => None
       end
-  | [] => 0
+  | [] => None
   end.
+(* arm64.rs ptr_auth_strip: `max_module_addr`, the expression regenerated from the Rust text (Gen/UnwindTail.v) *)
+Definition d_max_module_addr : Z := arm64_max_module_addr d_last_module.
 
 Definition mod_of (x : Z) : option modspec :=
   match d_module_at x with Some i => nth_error mods (Z.to_nat i) | None => None end.
 
-(* lib.rs instruction_seems_valid_by_symbols *)
-Definition d_instr_valid (x : Z) : bool :=
-  let i := sat_sub x 1 in
-  if i =? 0 then false
-  else match mod_of i with
-       | None => false
-       | Some (b, _, None) => true
-       | Some (b, _, Some s) =>
-           let addr := i - b in
-           match s_table s with
-           | Some t => match table_fill t addr with Some _ => true | None => false end
-           | None => (0 <? s_func_size s) && (s_func_lo s <=? addr) && (addr <? s_func_lo s + s_func_size s)
-           end
-       end.
+(* symbol_provider.fill_symbol(module, frame) as instruction_seems_valid_by_symbols sees it (see Gen/UnwindTail.v,
+   lib_isv_by_symbols): None = Err (no symbol file for the module), Some None = Ok without set_function,
+   Some (Some false) = Ok after set_function with a non-empty name (the FUNC names of the driver's files are not empty) *)
+Definition d_fill (m : modspec) (i : Z) : option (option bool) :=
+  match m with
+  | (b, _, None) => None
+  | (b, _, Some s) =>
+      let addr := i - b in
+      Some (if (match s_table s with
+                | Some t => match table_fill t addr with Some _ => true | None => false end
+                | None => (0 <? s_func_size s) && (s_func_lo s <=? addr) && (addr <? s_func_lo s + s_func_size s)
+                end)
+            then Some false else None)
+  end.
+(* lib.rs instruction_seems_valid_by_symbols: the function body regenerated from the Rust text (Gen/UnwindTail.v) over
+   this driver's module lookup and symbol files; C05/ProofsValid.v, d_instr_valid_spec, spells it out *)
+Definition d_instr_valid (x : Z) : bool := lib_isv_by_symbols mod_of d_fill x.
 
 Definition memoize (n : Z) : Z :=
   match filter (fun pr => fst pr =? n) (a_aliases a) with (_, c) :: _ => c | [] => n end.
